@@ -48,7 +48,7 @@ static void stream_event(int stream, u8_t *block) {
   long slot = -1;
   if (bi >= 0) slot = (long)((block - (u8_t *)g_bg->buflst[bi].b) / 16);
   if (bi >= 0 && vs_active()) {
-    if (!COARSE) vs_point(100, bi);
+    if (COARSE == 0) vs_point(100, bi);
     vs_access(2 * bi + 1, 1, 100 + stream);
     if (g_io_busy[bi]) note_overlap("worker-block-during-io", bi);
   }
@@ -87,7 +87,7 @@ extern "C" void wencry_verif_point(int kind, long index, long aux) {
   int bi = (kind == WV_BUF_LOAD_STEP || kind == WV_BUF_EXPORT_STEP) ? buf_index_of((void *)index) : (int)index;
   if (bi < 0 || bi >= multicry_master::THREAD_MAX) { vs_point(kind, -1); return; }
   // scheduling point first: the access happens after the point
-  bool is_sched = !COARSE || kind == WV_W_GET; // in coarse mode only lock operations and block hand-outs are points
+  bool is_sched = COARSE <= 1 || kind == WV_W_GET; // in coarse mode only lock operations and block hand-outs are points
   if (is_sched) vs_point(kind, bi);
   switch (kind) {
   case WV_W_GET: {
@@ -227,7 +227,7 @@ static std::string classify(const vx::Exec &x, std::string &prop, std::string &k
   if (x.outcome == vx::OC_DEADLOCK) { prop = "C04"; key = "deadlock"; return "deadlock: " + x.fatal; }
   if (x.outcome == vx::OC_HORIZON) { prop = "C04"; key = "livelock"; return "step horizon exceeded: " + x.fatal; }
   if (x.outcome == vx::OC_TIMEOUT) { prop = "C04"; key = "hang"; return "wall-clock alarm (loop without scheduling point?)"; }
-  if (x.outcome == vx::OC_ASAN) { prop = "C14"; key = "memory-error"; return "AddressSanitizer report during pipeline run; obs=" + x.obs; }
+  if (x.outcome == vx::OC_ASAN) { prop = "C03"; key = "memory-error"; return "AddressSanitizer report during pipeline run; obs=" + x.obs; }
   if (x.outcome == vx::OC_SIGNAL || x.outcome == vx::OC_EXIT) { prop = "C03"; key = "crash"; return "abnormal end: " + x.fatal; }
   if (x.outcome != vx::OC_OK) { prop = "C03"; key = "internal"; return std::string("unexpected outcome ") + vx::outcome_name(x.outcome); }
   auto field = [&](const char *n) { size_t p = x.obs.find(std::string(n) + "="); if (p == std::string::npos) return std::string("?"); size_t e = x.obs.find(';', p); return x.obs.substr(p + strlen(n) + 1, e == std::string::npos ? std::string::npos : e - p - strlen(n) - 1); };
@@ -253,6 +253,7 @@ int main(int argc, char **argv) {
   vx::Config cfg;
   cfg.bound = (int)a.num("bound", 2);
   cfg.sleep = a.num("sleep", 0) != 0;
+  cfg.delay = a.num("delay", 0) != 0;
   cfg.spurious = (int)a.num("spurious", 0);
   cfg.maxexec = a.num("maxexec", -1);
   cfg.deadline_s = (double)a.num("deadline", -1);
@@ -274,7 +275,7 @@ int main(int argc, char **argv) {
     if (ENC) { IN = P; EXP = F; } else { IN = F; EXP = P; }
     sc = scenario_e2e;
   }
-  std::string cfgname = SCEN + ":T=" + std::to_string(Tn) + ",len=" + std::to_string(len) + ",enc=" + std::to_string(ENC) + ",S=" + std::to_string(S) + (COARSE ? ",coarse" : "") + (cfg.sleep ? ",sleepsets" : ",bound=" + std::to_string(cfg.bound)) + (cfg.spurious ? ",spurious=" + std::to_string(cfg.spurious) : "");
+  std::string cfgname = SCEN + ":T=" + std::to_string(Tn) + ",len=" + std::to_string(len) + ",enc=" + std::to_string(ENC) + ",S=" + std::to_string(S) + (COARSE == 1 ? ",medium" : COARSE == 2 ? ",coarse" : "") + (cfg.sleep ? ",sleepsets" : (cfg.delay ? ",delaybound=" : ",bound=") + std::to_string(cfg.bound)) + (cfg.spurious ? ",spurious=" + std::to_string(cfg.spurious) : "");
 
   if (a.has("replay")) { // run one schedule twice, print observations, exit 0 iff identical
     std::vector<int> pre = a.list("replay");
